@@ -6,7 +6,7 @@
 From Coq Require Import String.
 From V.Lib Require Import Base Hex.
 From V.Gen Require Import C10Consts.
-From V.C10 Require Import Model Spec Corr Wf PF4 PCs PCont PTop PRegroup PB32a PB32b PB58 PCompl PTop2 PSort PConv.
+From V.C10 Require Import Model Spec Corr Wf PF4 PCs PCont PTop PRegroup PB32a PB32b PB58 PCompl PTop2 PSort PConv PKeys.
 From Coq Require Import Permutation.
 From Coq Require Import List Lia ZifyBool ZifyNat.
 Local Open Scope N_scope.
@@ -269,4 +269,15 @@ Proof.
     + destruct o as [a'|[x y]|]; cbn in R; try discriminate.
       unfold pair_eqb in R. cbn [fst snd] in R. apply andb_true_iff in R as [R1 R2].
       apply net_eqb_eq in R1, R2. subst x y. rewrite !net_eqb_refl. reflexivity.
+  - (* CKDec *)
+    cbn [run_case prop_case wf_case known_class] in *.
+    apply andb_true_iff in W as [W Lw]. apply andb_true_iff in W as [_ U]. apply negb_true_iff in U.
+    apply andb_true_iff in R as [R1 R2].
+    apply (option_eqb_true _ _ _ bres_eqb_eq) in R2. subst re.
+    destruct (keys_decode_payment_address (fun _ => valid) hrp s) as [d|e|] eqn:D.
+    + destruct o as [d'|e'|]; cbn in R1; try discriminate. apply bytes_eqb_eq in R1. subst d'.
+      destruct (keys_accept_canonical _ _ _ _ U Lw D) as [E Ld].
+      rewrite Ld, N.eqb_refl. cbn [on_ok andb]. rewrite E. cbn. apply bytes_eqb_refl.
+    + destruct o; cbn in R1; try discriminate. reflexivity.
+    + exfalso. exact (keys_decode_total _ _ _ D).
 Qed.
